@@ -7,6 +7,8 @@ package c19
 
 import (
 	"context"
+
+	"golang.org/x/text/language"
 	"net/url"
 	"sync"
 	"time"
@@ -15,6 +17,7 @@ import (
 	"github.com/ory/fosite/compose"
 	"github.com/ory/fosite/handler/oauth2"
 	"github.com/ory/fosite/handler/openid"
+	"github.com/ory/fosite/i18n"
 	"github.com/ory/fosite/token/jwt"
 	"github.com/ory/fosite/zz_verif_h/world"
 	"github.com/ory/fosite/zz_verif_h/zz"
@@ -107,10 +110,29 @@ func ZZ_C19_shared_race() {
 		Extra: []compose.Factory{compose.RFC8628DeviceFactory, compose.RFC8628DeviceAuthorizationTokenFactory, compose.PushedAuthorizeHandlerFactory}})
 	label := []string{"no-unsynchronised-write-to-shared-provider-state:configured", "no-unsynchronised-write-to-shared-provider-state:defaults"}[variant]
 	if !zz.Symbolic() {
+		// native twin only (golang.org/x/text is outside the engine's reach): a message catalog shared by all
+		// requests, consulted concurrently for several languages while the flows run
+		cat := i18n.NewDefaultMessageCatalog([]*i18n.DefaultLocaleBundle{
+			{LangTag: "en", Messages: []*i18n.DefaultMessage{{ID: "zz_msg", FormattedMessage: "message %s"}}},
+			{LangTag: "es", Messages: []*i18n.DefaultMessage{{ID: "zz_msg", FormattedMessage: "mensaje %s"}}},
+			{LangTag: "de", Messages: []*i18n.DefaultMessage{{ID: "zz_msg", FormattedMessage: "Nachricht %s"}}},
+			{LangTag: "fr", Messages: []*i18n.DefaultMessage{{ID: "zz_msg", FormattedMessage: "message %s"}}},
+		})
+		w.Cfg.MessageCatalog = cat
+		langs := []language.Tag{language.English, language.Spanish, language.German, language.French}
 		var wg sync.WaitGroup
 		for g := 0; g < 2; g++ {
 			wg.Add(1)
 			go func() { defer wg.Done(); flows(w, "native") }()
+		}
+		for g := 0; g < 4; g++ {
+			wg.Add(1)
+			go func(g int) {
+				defer wg.Done()
+				for k := 0; k < 50; k++ {
+					_ = w.Cfg.GetMessageCatalog(w.Ctx).GetMessage("zz_msg", langs[(g+k)%len(langs)], "x")
+				}
+			}(g)
 		}
 		wg.Wait()
 		zz.Observe("writes", 0)
